@@ -3,6 +3,7 @@ package c06
 
 import (
 	"fmt"
+	"strings"
 	"testing"
 
 	jp "github.com/evanphx/json-patch/v5"
@@ -136,7 +137,10 @@ func drawValue(t *rapid.T) *ref.V {
 func drawPair(t *rapid.T) Case {
 	a := drawValue(t)
 	var b *ref.V
-	kind := gen.Uniform(t, 0, 9, "pk")
+	kind := gen.Uniform(t, 0, 10, "pk")
+	if kind == 10 {
+		return drawNumberPair(t)
+	}
 	switch {
 	case kind <= 3:
 		b = a.Clone()
@@ -146,6 +150,59 @@ func drawPair(t *rapid.T) Case {
 		b = drawValue(t)
 	}
 	return Case{A: gen.SpellWith(t, a, respell, "sa"), B: gen.SpellWith(t, b, respell, "sb")}
+}
+
+// drawNumberPair: two texts that differ in one number only, and there only in the
+// exponent or the last place of the fraction - literals with both a fraction and an
+// exponent, with zeros at the end of either. Different values, so never equal.
+func drawNumberPair(t *rapid.T) Case {
+	sign := rapid.SampledFrom([]string{"", "", "-"}).Draw(t, "nsign")
+	ip := rapid.SampledFrom([]string{"1", "2", "10", "15", "100", "7", "0"}).Draw(t, "nint")
+	fr := rapid.SampledFrom([]string{"", ".5", ".50", ".05", ".25", ".100", ".0", ".00"}).Draw(t, "nfrac")
+	if ip == "0" && (fr == "" || fr == ".0" || fr == ".00") {
+		fr = ".5" // the value must not be zero: zero times any power of ten is zero
+	}
+	e := rapid.SampledFrom([]string{"e", "E", "e+", "e-", "E-"}).Draw(t, "ne")
+	ex := rapid.SampledFrom([]string{"1", "2", "10", "3", "20", "01"}).Draw(t, "nexp")
+	la := sign + ip + fr + e + ex
+	var lb string
+	switch gen.Uniform(t, 0, 4, "nk") {
+	case 0:
+		lb = sign + ip + fr + e + ex + "0" // e1 -> e10
+	case 1:
+		lb = sign + ip + fr + e + strings.TrimSuffix(ex, "0") + "1"
+	case 2:
+		if strings.Contains(e, "-") {
+			lb = sign + ip + fr + "e" + ex
+		} else {
+			lb = sign + ip + fr + "e-" + ex
+		}
+	case 3:
+		if fr == "" {
+			lb = sign + ip + ".5" + e + ex
+		} else {
+			lb = sign + ip + fr + "5" + e + ex
+		}
+	default:
+		lb = sign + ip + "0" + fr + e + ex
+		if ip == "0" {
+			lb = sign + "1" + fr + e + ex
+		}
+	}
+	w := gen.Uniform(t, 0, 2, "nwrapk")
+	mk := func(l string) string {
+		switch w {
+		case 0:
+			return l
+		case 1:
+			return "[1," + l + "]"
+		}
+		return `{"a":[` + l + `],"b":null}`
+	}
+	if rapid.Bool().Draw(t, "nswap") {
+		la, lb = lb, la
+	}
+	return Case{A: mk(la), B: mk(lb)}
 }
 
 func drawTriple(t *rapid.T) Case {
@@ -162,7 +219,28 @@ func drawTriple(t *rapid.T) Case {
 
 var alphabet = []byte("{}[],:\"\\-+.01eEtrufalsn \n/\x00\x80b")
 
+// lenient: what tolerant readers skip or accept around a JSON text. RFC 8259 allows none of it.
+var lenientPre = []string{"\xef\xbb\xbf", "\xff\xfe", "\xfe\xff", "\x00", "\x0c", "\x0b", "\xc2\xa0", "\xe2\x80\xa8", "//c\n", "/**/", "\x1e", ")]}'\n", "#\n"}
+var lenientPost = []string{"\xef\xbb\xbf", "\x00", "\x0c", "\xc2\xa0", "//c", "/**/", ",", ";", "\x1a", "\n\x00"}
+
 func drawMalformed(t *rapid.T) Case {
+	if gen.OneIn(t, 4, "lenient") {
+		good := gen.WithEmptyName.Value(2).Draw(t, "lgood").Text(false)
+		a := good
+		if rapid.Bool().Draw(t, "lpre") {
+			a = rapid.SampledFrom(lenientPre).Draw(t, "lp") + good
+		} else {
+			a = good + rapid.SampledFrom(lenientPost).Draw(t, "ls")
+		}
+		b := good
+		if rapid.Bool().Draw(t, "lsame") {
+			b = a
+		}
+		if rapid.Bool().Draw(t, "lswap") {
+			a, b = b, a
+		}
+		return Case{A: a, B: b}
+	}
 	g := rapid.OneOf(
 		rapid.SliceOfN(rapid.SampledFrom(alphabet), 0, 12),
 		rapid.SliceOfN(rapid.Byte(), 0, 12),
